@@ -149,7 +149,7 @@ def w_matrices(draw, K, diagonal, positive=False):
 
 @st.composite
 def param_cases(draw):
-    N = draw(st.sampled_from([3, 4, 5, 5, 6, 6, 7]))
+    N = draw(st.sampled_from([2, 3, 4, 5, 5, 6, 6, 7]))
     K = draw(st.sampled_from([1, 2, 2, 3, 3]))
     D = N - draw(st.integers(0, N - 2)) if draw(st.booleans()) else draw(st.integers(2, N))
     diagonal = draw(st.booleans())
